@@ -18,6 +18,12 @@ pub struct C05Case {
     /// name, bad path); the checked issuance must be unaffected by it
     #[serde(default)]
     pub prelude: Option<IssueSpec>,
+    /// 0: the prelude runs on the same issuer instance. 1 / 2: it runs on ANOTHER instance on the
+    /// same thread whose algorithm name does not fit its key (1) or names no algorithm (2), so that
+    /// call fails at the signature, after its disclosures were made; the checked issuance then uses
+    /// a fresh instance and must be unaffected by whatever the thread remembers
+    #[serde(default)]
+    pub prelude_fails_at_signature: u8,
 }
 
 fn fail(sig: &str, msg: String, issued: &str) -> Failure {
@@ -139,6 +145,17 @@ pub fn check(case: &C05Case, st: &mut Stats) -> Verdict {
     let marked = mark(&spec.claims, &spec.strat);
     let out = match &case.prelude {
         None => sut::issue(spec),
+        Some(pre) if case.prelude_fails_at_signature != 0 => {
+            st.label("with_prelude_call_failing_at_the_signature_on_another_issuer_same_thread");
+            st.sub(1);
+            let mut bad = sut::new_issuer_failing_at_signature(spec.alg, crate::keys::KeyId::Primary, case.prelude_fails_at_signature == 2);
+            let first = sut::issue_with(&mut bad, pre);
+            st.label(&format!("prelude={}", first.kind()));
+            if let Out::Panic(p) = first {
+                return Err(Failure::new(panic_sig("issue_sd_jwt(prelude)", &p), format!("issue_sd_jwt panicked on the prelude call: {}", p)));
+            }
+            sut::issue(spec)
+        }
         Some(pre) => {
             st.label("with_prelude_call_on_same_issuer");
             st.sub(1);
